@@ -3,7 +3,7 @@ CONSTANTS
   Programs <- Programs2x2
   ShardOf <- SameShard
   InsertOverwrites = FALSE
-  MapSkipsHeldShard = FALSE
+  MapSkipsHeldShard = TRUE
 SPECIFICATION FairSpec
 INVARIANTS NoMonitorFired CloneOK NoDeadlock
 PROPERTIES WriteOnce Termination
